@@ -143,7 +143,7 @@ async def amain(pid: str, replay: str | None) -> int:
     for f in ctx.findings:
         k = matches_known(f, known)
         if k is not None:
-            print(f"KNOWN-FINDING: property={pid} {k.get('signature')}: {f.what}")
+            print(f"KNOWN-FINDING: property={pid} {k.get('signature')}: " + " | ".join(str(f.what).split("\n"))[:600])
             continue
         n += 1
         path = common.write_replay(pid, f, n)
